@@ -35,12 +35,13 @@ static Plan gen_fileset(const std::string &prop, const std::string &tier, uint64
 	p.seti("ffilter", r.chance(1, 4) ? 1 + r.below(2) : 0);
 	p.seti("rfilter", r.chance(1, 5) ? 1 + r.below(2) : 0);
 	p.seti("mfunc", r.chance(2, 3) ? 0 : 1 + r.below(3));
-	p.seti("dupsort", r.chance(1, 4) ? 1 : 0);	// merge function of the first handle: union / min / lcp / max
+	p.seti("dupsort", r.chance(1, 4) ? 1 : 0);
+	p.seti("relset", r.chance(1, 3) ? 1 : 0);	// merge function of the first handle: union / min / lcp / max
 	auto newver = [&]() {
 		std::vector<std::string> a{ std::to_string(r.below(3)) };	// 0 rewrite in place (new mtime), 1 rename (new inode, new mtime), 2 rename within the same second (new inode, SAME mtime)
 		for (int i = 0; i < nfiles; i++) {
 			uint64_t d = r.below(10);
-			if (d < 5) a.push_back((r.chance(1, 3) ? "a" : "r") + std::to_string(i));
+			if (d < 5) a.push_back((r.chance(1, 3) ? (r.chance(1, 2) ? "a" : r.chance(1, 2) ? "b" : "c") : "r") + std::to_string(i));
 			else if (d < 6 && r.chance(1, 4)) a.push_back("d" + std::to_string(i));
 		}
 		if (r.chance(1, 4)) a.push_back("m" + std::to_string(r.below(3)));
@@ -188,7 +189,7 @@ static bool rfilter_cb(struct mtbl_reader *r, void *clos)
 
 struct World {
 	RunResult &res;
-	std::string dir, setpath;
+	std::string dir, setpath, altdir;
 	FileInfo files[MAXF];
 	std::vector<Version> vers;
 	Handle hs[MAXH];
@@ -282,6 +283,14 @@ static RunResult exec_fileset(const Plan &p)
 	w.dir = scratch_dir() + "/fs";
 	mkdir(w.dir.c_str(), 0700);
 	w.setpath = w.dir + "/tables.fileset";
+	w.altdir = scratch_dir() + "/a-link-to-the-directory-of-the-tables";
+	if (symlink("fs", w.altdir.c_str()) != 0 && errno != EEXIST) { res.fail("INFRA", "symlink", "cannot link " + w.altdir); return res; }
+	// half of the plans open the fileset through a relative name of the setfile (from inside its directory)
+	if (p.geti("relset", 0)) {
+		if (chdir(w.dir.c_str()) != 0) { res.fail("INFRA", "chdir", "cannot enter " + w.dir); return res; }
+		w.setpath = "tables.fileset";
+		res.probes["setfile-opened-by-relative-name"]++;
+	}
 	write_file(w.dir + "/junk.mtbl", "this is not a table, it only looks like one by name");
 	sim_clock_set(100000, 0);
 	int64_t t_start = w.now();
@@ -357,13 +366,17 @@ static RunResult exec_fileset(const Plan &p)
 				const std::string &tk = o.a[a];
 				if (tk.empty()) continue;
 				int i = atoi(tk.c_str() + 1) % MAXF;
-				if (tk[0] == 'r' || tk[0] == 'a') {
+				if (tk[0] == 'r' || tk[0] == 'a' || tk[0] == 'b' || tk[0] == 'c') {
 					if (!w.files[i].made) continue;
 					bool dupl = false;
 					for (auto &lf : v.listed) if (lf.first == i) dupl = true;
 					if (dupl) continue;	// duplicate lines are not generated (unspecified)
-					v.listed.push_back({ i, tk[0] == 'a' });
-					sf += (tk[0] == 'a' ? w.dir + "/" : std::string()) + "f" + std::to_string(i) + ".mtbl\n";
+					v.listed.push_back({ i, tk[0] != 'r' });
+					// absolute names come in three spellings: inside the setfile's directory, through ".." and through a
+					// symbolic link to it whose name has another length (the same file every time)
+					std::string pre = tk[0] == 'r' ? std::string() : tk[0] == 'a' ? w.dir + "/" : tk[0] == 'b' ? w.dir + "/../fs/" : w.altdir + "/";
+					if (tk[0] == 'b' || tk[0] == 'c') res.probes["absolute-name-outside-the-setfile-directory"]++;
+					sf += pre + "f" + std::to_string(i) + ".mtbl\n";
 				} else if (tk[0] == 'd') {
 					if (w.files[i].made && !w.files[i].deleted) { unlink((w.dir + "/f" + std::to_string(i) + ".mtbl").c_str()); w.files[i].deleted = true; res.probes["file-deleted"]++; }
 				} else if (tk[0] == 'm') { sf += "missing" + std::to_string(i) + ".mtbl\n"; res.probes["setfile-names-missing-file"]++; }
